@@ -196,8 +196,7 @@ Section Ctx.
           match get_surrounding_section_id target tree with
           | Some section_id =>
               do inl <- ctx_collect inline_key;
-              do t' <- append_pre_header section_id inl (remove_node target tree);
-              Ok (Some [Remove inline_key; Update key parent t'])
+              Ok (Some [Remove inline_key; Update key parent (append_pre_header section_id inl (remove_node target tree))])
           | None => Ok None
           end
         else Ok None
